@@ -41,6 +41,8 @@ CAT = [
     ("entry", "conf", "a", [("t", "{5}")], "@conf{\xa0a\u2003, t\xa0= {5}}"),
     ("dupfield", "y", "b", [("x", "{1}"), ("x", "{2}")], "@y{b, x = {1},\u3000x\x0c= {2}}"),
     ("string", "s", "{nbsp}", "@string{\xa0s\xa0= {nbsp}}"),
+    # field keys that differ only in letter case are different keys: a live entry, nothing repeated
+    ("entry", "misc", "d", [("X", "{1}"), ("x", "{2}"), ("y", "{3}")], "@misc{d, X = {1}, x = {2}, y = {3}}"),
 ]
 
 
@@ -193,8 +195,20 @@ def check_two_docs(acc, stripe=None):
                                 lib.replace(strs[0], String(strs[1].key, "v"))
                             except ValueError:
                                 pass
+                    # (every view is read before the second part arrives: views are functions of the blocks held NOW)
+                    _ = (lib.entries, lib.strings, lib.preambles, lib.comments, lib.failed_blocks, lib.entries_dict, lib.strings_dict)
                     lib = bibtexparser.parse_string(tb, parse_stack=[], library=lib)
                     one = bibtexparser.parse_string(ta + "\n" + tb, parse_stack=[])
+                    views = lambda L: ([id(x) for x in L.entries], sorted(id(x) for x in L.strings),  # (no order is promised for strings)
+                                         [id(x) for x in L.failed_blocks], sorted(L.entries_dict), sorted(L.strings_dict))
+                    derived = lambda L: ([id(x) for x in L.blocks if type(x) is Entry], sorted(id(x) for x in L.blocks if type(x) is String), [id(x) for x in L.blocks if isinstance(x, ParsingFailedBlock)], sorted({x.key for x in L.blocks if type(x) is Entry}), sorted({x.key for x in L.blocks if type(x) is String}))
+                    if views(lib) != derived(lib):
+                        acc.violation(
+                            {"oracle": "views_describe_the_blocks_held", "rolled_back_replace": with_replace},
+                            {"case": case, "observed": [len(v) for v in views(lib)], "expected": [len(v) for v in derived(lib)]},
+                            size=len(a) + len(b),
+                        )
+                        continue
                 except Exception as e:
                     acc.exception(e, case, "parse_string(library=...)")
                     continue
